@@ -36,3 +36,77 @@ Example C01_example :
   values_of_bytes [49;69;50;32;34;92;117;48;48;69;57;34;91;32;116;114;117;101;32;44;123;34;97;34;58;45;48;46;53;101;43;49;125;93]%N
   = ([JNum (NPos 100); JStr [233%N]; JArr [JBool true; JObj [([97%N], JNum (NNeg (-5)))]]], 0%N).
 Proof. vm_compute. reflexivity. Qed.
+
+(* numbers: the double a decimal text denotes is the nearest one (ties to even), exactly, for every ratio; the rounding is monotone *)
+From Coq Require Import QArith Qabs.
+From Jawk Require Import Base F64 F64Proofs.
+
+(* the finite result of rounding n/d is at least as close to n/d as every other finite double *)
+Theorem C01_round_nearest :
+  forall n d : Z,
+    (0 < n)%Z ->
+    (0 < d)%Z ->
+    (round_mag n d < inf_bits)%Z ->
+    forall b : Z,
+    (0 <= b < inf_bits)%Z ->
+    forall x y : Q,
+    mag_value (round_mag n d) = Some x ->
+    mag_value b = Some y -> Qabs ((n # Z.to_pos d) - x) <= Qabs ((n # Z.to_pos d) - y).
+Proof. exact round_mag_nearest. Qed.
+Print Assumptions C01_round_nearest.
+
+(* when two doubles are equally close the one with the even mantissa is returned *)
+Theorem C01_round_ties_even :
+  forall n d : Z,
+    (0 < n)%Z ->
+    (0 < d)%Z ->
+    (round_mag n d < inf_bits)%Z ->
+    forall b : Z,
+    (0 <= b < inf_bits)%Z ->
+    forall x y : Q,
+    mag_value (round_mag n d) = Some x ->
+    mag_value b = Some y ->
+    ~ y == x ->
+    Qabs ((n # Z.to_pos d) - x) == Qabs ((n # Z.to_pos d) - y) -> (round_mag n d mod 2)%Z = 0%Z.
+Proof. exact round_mag_ties_even. Qed.
+Print Assumptions C01_round_ties_even.
+
+(* infinity exactly from the IEEE overflow threshold 2^1024 - 2^970 on *)
+Theorem C01_round_overflow :
+  forall n d : Z,
+    (0 < n)%Z -> (0 < d)%Z -> round_mag n d = inf_bits <-> ((2 ^ 1024 - 2 ^ 970) * d <= n)%Z.
+Proof. exact round_mag_overflow. Qed.
+Print Assumptions C01_round_overflow.
+
+(* a ratio that is a double is returned unchanged *)
+Theorem C01_round_exact :
+  forall (n d b : Z) (y : Q),
+    (0 < n)%Z ->
+    (0 < d)%Z -> (0 <= b < inf_bits)%Z -> mag_value b = Some y -> y == n # Z.to_pos d -> round_mag n d = b.
+Proof. exact round_mag_exact. Qed.
+Print Assumptions C01_round_exact.
+
+(* rounding never reverses the order of two ratios *)
+Theorem C01_round_monotone :
+  forall n1 d1 n2 d2 : Z,
+    (0 < n1)%Z ->
+    (0 < d1)%Z ->
+    (0 < n2)%Z -> (0 < d2)%Z -> (n1 * d2 <= n2 * d1)%Z -> (round_mag n1 d1 <= round_mag n2 d2)%Z.
+Proof. exact round_mag_monotone. Qed.
+Print Assumptions C01_round_monotone.
+
+(* with sign: infinity from the threshold on, otherwise the nearest finite double *)
+Theorem C01_ratio_correct :
+  forall (neg : bool) (n d : Z),
+    (0 < n)%Z ->
+    (0 < d)%Z ->
+    ((2 ^ 1024 - 2 ^ 970) * d <= n)%Z /\ f_decode (f_of_ratio neg n d) = FInf neg \/
+    (n < (2 ^ 1024 - 2 ^ 970) * d)%Z /\
+    (exists m e : Z,
+       f_decode (f_of_ratio neg n d) = FFin neg m e /\
+       (forall (b : Z) (y : Q),
+        (0 <= b < inf_bits)%Z ->
+        mag_value b = Some y ->
+        Qabs ((n # Z.to_pos d) - inject_Z m * pow2 e) <= Qabs ((n # Z.to_pos d) - y))).
+Proof. exact f_of_ratio_correct. Qed.
+Print Assumptions C01_ratio_correct.
